@@ -19,6 +19,11 @@ NOT_APPLICABLE = {
            'nodes or edges) is decided under C16',
 }
 
+GENERIC = ('  Also decided, for every function the property depends on (anchored functions and their callees, sa/anchors.json): '
+           'nothing survives a call (no mutable default in use, no memoising decorator, no module-level cache), stores into '
+           'preallocated typed arrays keep the element type (symbolic lattice bool < int < float < complex), and every read of a '
+           'local is definitely assigned when loops may run zero times.')
+
 ALL = [f'C{i:02d}' for i in range(1, 21)]
 
 
@@ -46,7 +51,7 @@ def main():
             'replay_cmd_template': './check --replay {path}',
             'engine': 'sa',
             'technique': c['technique'],
-            'level_claimed': {'category': 'other', 'text': c['text'], 'design_ref': c['design_ref']},
+            'level_claimed': {'category': 'other', 'text': c['text'] + GENERIC, 'design_ref': c['design_ref'] + ', 16'},
             'level_note': c['note'],
         })
     na = []
